@@ -174,7 +174,11 @@ func init() {
 	externals[rt("MaxAlloc")] = func(fr *frame, args []value) value {
 		return fr.i.res.MaxAlloc
 	}
-	externals[rt("Tier")] = func(fr *frame, args []value) value { return fr.i.cfg.Tier }
+	externals[rt("OpaqueAlloc")] = func(fr *frame, args []value) value {
+		fr.i.opaqueAlloc = fr.i.branchVal(args[0])
+		return nil
+	}
+	externals[rt("Tier")] =func(fr *frame, args []value) value { return fr.i.cfg.Tier }
 	externals[rt("Symbolic")] = func(fr *frame, args []value) value { return fr.i.cfg.Concrete == nil }
 	externals[rt("Settle")] = func(fr *frame, args []value) value { fr.i.settle(); return nil }
 	externals[rt("Advance")] = func(fr *frame, args []value) value {
